@@ -52,6 +52,12 @@ RunOK(r) ==
                        \A a \in RangeS(r.arms) :
                            SameStats(bd.evals[st][a], EvalArm(testRows, trainRows, bd.predictions, bd.nb, a, st)))
               /\ Check("eval.counts_sum", ISumSeq([i \in DOMAIN r.arms |-> bd.evals[st][r.arms[i]].count]) = T)
+        /\ \A st \in {"min", "mean", "max"} : \A k \in DOMAIN bd.batches :
+              Check("eval.batch." \o st,
+                    \A a \in RangeS(r.arms) :
+                        SameStats(bd.batches[k][st][a],
+                                  EvalArmIn(testRows, trainRows, bd.predictions, bd.nb, a, st,
+                                            (k - 1) * r.batch + 1, IF k * r.batch < T THEN k * r.batch ELSE T)))
         /\ Check("eval.ordered",
                  \A a \in RangeS(r.arms) :
                      (bd.evals["mean"][a].count > 0) =>
